@@ -135,8 +135,35 @@ def renderCDrops (l : List (Nat × Nat)) : String :=
   let strs := l.map fun (ty, s) => if compSized ty then s!"K{ty}:s{s}" else s!"K{ty}"
   " ".intercalate (sortStrings strs)
 
+def renderKeys (l : List Key) : String := "[" ++ ",".intercalate (l.map Key.render) ++ "]"
+def keyOrd (k : Key) : Nat := k.gen * 4294967296 + k.idx
+
+def HandlerList.dump (l : HandlerList Key) : String :=
+  s!"before={l.before} after={l.after} {renderKeys l.entries}"
+
+/-- `World::verif_snapshot` (the `arch` channel): same text as the hook in `/repo` prints -/
+def World.renderSnapshot (w : World) : List String :=
+  let nextkey := match w.entities.nextKey w.entities.nextKeyIndex with
+    | .key k _ => k.render
+    | _ => "none"
+  let ent := s!"ent len={w.entities.len} nextfree={w.entities.nextFree} res.index={w.resIndex} res.count={w.resCount} nextkey={nextkey} queue={w.queue.length}"
+  let locs := "locs [" ++ ",".intercalate (w.entities.toList.map fun (k, l) => s!"{k.render}@{l.arch}:{l.row}") ++ "]"
+  let archs := w.archs.toList.flatMap fun (i, a) =>
+    let edges (m : List (Nat × Nat)) := "[" ++ ",".intercalate (m.map fun (c, d) => s!"{c}>{d}") ++ "]"
+    let refresh := (a.refresh.toArray.qsort fun x y => keyOrd x < keyOrd y).toList
+    let ls := ((a.listeners.keys.zip a.listeners.values).toArray.qsort fun x y => x.1 < y.1).toList
+    let lss := ";".intercalate (ls.map fun (k, l) => s!"{k}:{HandlerList.dump l}")
+    [s!"arch {i} index={a.index} comps=[{",".intercalate (a.comps.map toString)}] ids={renderKeys a.ids} ins={edges a.insEdges} rem={edges a.remEdges} refresh={renderKeys refresh} listeners=[{lss}]",
+     s!"archcap {i} {a.cap}"]
+  let n := w.archs.toList.length
+  let exact := w.archs.toList.all fun (i, a) => w.archByComps a.comps == some i
+  let glists := w.byGlobal.zipIdx.map fun (l, i) => s!"glist {i} {HandlerList.dump l}"
+  let members := w.comps.toList.map fun (k, ci) => s!"member {k.idx} [{",".intercalate (ci.memberOf.map toString)}]"
+  [ent, locs] ++ archs ++ [s!"bycomps n={n} exact={exact}"] ++ glists
+    ++ [s!"hord {renderKeys w.byInsertOrder}", s!"hlen {w.handlers.len}"] ++ members
+
 /-- one protocol step: the observation lines for `op` -/
-def step (w : World) (op : Op) : World × List String :=
+def step (w : World) (op : Op) (snap : Bool := false) : World × List String :=
   let w := { w with out := #[], edrops := [], cdrops := [], budget := BUDGET }
   let (r, w) := (execOp op).run.run w
   let head := match r with
@@ -147,7 +174,10 @@ def step (w : World) (op : Op) : World × List String :=
   let lines := head ++ w.out.toList.map (fun s => "t " ++ s)
     ++ [s!"ed {" ".intercalate ((natSort w.edrops).map toString)}".trimAsciiEnd.toString,
         s!"cd {renderCDrops w.cdrops}".trimAsciiEnd.toString]
-    ++ (match op with | .drop => [] | _ => [w.renderStore, w.renderReg, s!"pend res={w.resCount} queue={w.queue.length}"])
+    ++ (match op with
+        | .drop => []
+        | _ => [w.renderStore, w.renderReg, s!"pend res={w.resCount} queue={w.queue.length}"]
+               ++ (if snap then w.renderSnapshot.map ("snap " ++ ·) else []))
   (w, lines)
 
 end Evenio
